@@ -7,8 +7,8 @@
 package memdrv
 
 import (
-	"errors"
 	"net"
+	"os"
 	"sync"
 
 	"github.com/uhppoted/uhppote-core/uhppote"
@@ -20,7 +20,9 @@ type Sent struct {
 	Request []byte
 }
 
-var ErrTimeout = errors.New("memdrv: i/o timeout (script exhausted)")
+// ErrTimeout is what the real driver returns when the deadline passes: a *net.OpError that
+// wraps os.ErrDeadlineExceeded and reports Timeout() == true.
+var ErrTimeout error = &net.OpError{Op: "read", Net: "udp", Err: os.ErrDeadlineExceeded}
 
 type Driver struct {
 	mu        sync.Mutex
